@@ -85,10 +85,33 @@ BMPString_constraint(const asn_TYPE_descriptor_t *td, const void *sptr,
 }
 
 /*
+ * Pass a piece of UTF-8 text on: as it is (print), or with the characters
+ * XML reserves written the way the other UTF-8 based string types
+ * write them (XER): &lt; &gt; &amp; and the X.680 control character elements.
+ * The escaping works octet by octet on the octets below 0x80,
+ * so cutting the text into pieces is harmless.
+ */
+static ssize_t
+BMPString__out(const asn_TYPE_descriptor_t *xer_td, const char *buf, size_t size,
+		asn_app_consume_bytes_f *cb, void *app_key) {
+	if(xer_td) {
+		OCTET_STRING_t os;
+		asn_enc_rval_t er;
+		memset(&os, 0, sizeof(os));
+		os.buf = (uint8_t *)buf;
+		os.size = size;
+		er = OCTET_STRING_encode_xer_utf8(xer_td, &os, 0, XER_F_BASIC,
+			cb, app_key);
+		return er.encoded;
+	}
+	return (cb(buf, size, app_key) < 0) ? -1 : (ssize_t)size;
+}
+
+/*
  * BMPString specific contents printer.
  */
 static ssize_t
-BMPString__dump(const BMPString_t *st,
+BMPString__dump(const BMPString_t *st, const asn_TYPE_descriptor_t *xer_td,
 		asn_app_consume_bytes_f *cb, void *app_key) {
 	char scratch[128];			/* Scratchpad buffer */
 	char *p = scratch;
@@ -101,9 +124,10 @@ BMPString__dump(const BMPString_t *st,
 	for(end--; ch < end; ch += 2) {
 		uint16_t wc = (ch[0] << 8) | ch[1];	/* 2 bytes */
 		if(sizeof(scratch) - (p - scratch) < 3) {
-			wrote += p - scratch;
-			if(cb(scratch, p - scratch, app_key) < 0)
-				return -1;
+			ssize_t n = BMPString__out(xer_td, scratch, p - scratch,
+				cb, app_key);
+			if(n < 0) return -1;
+			wrote += n;
 			p = scratch;
 		}
 		if(wc < 0x80) {
@@ -118,9 +142,11 @@ BMPString__dump(const BMPString_t *st,
 		}
 	}
 
-	wrote += p - scratch;
-	if(cb(scratch, p - scratch, app_key) < 0)
-		return -1;
+	{
+		ssize_t n = BMPString__out(xer_td, scratch, p - scratch, cb, app_key);
+		if(n < 0) return -1;
+		wrote += n;
+	}
 
 	return wrote;
 }
@@ -204,7 +230,7 @@ BMPString_encode_xer(const asn_TYPE_descriptor_t *td, const void *sptr,
 	if(!st || !st->buf)
 		ASN__ENCODE_FAILED;
 
-	er.encoded = BMPString__dump(st, cb, app_key);
+	er.encoded = BMPString__dump(st, td, cb, app_key);
 	if(er.encoded < 0) ASN__ENCODE_FAILED;
 
 	ASN__ENCODED_OK(er);
@@ -221,7 +247,7 @@ BMPString_print(const asn_TYPE_descriptor_t *td, const void *sptr, int ilevel,
 	if(!st || !st->buf)
 		return (cb("<absent>", 8, app_key) < 0) ? -1 : 0;
 
-	if(BMPString__dump(st, cb, app_key) < 0)
+	if(BMPString__dump(st, 0, cb, app_key) < 0)
 		return -1;
 
 	return 0;
